@@ -288,3 +288,7 @@ ben('C16', P, "        self._length = sum(lengths)\n        self._length_tol = (
 brk('C08', P, "            if 0 <= tx <= 1:\n                xtrema.append(self.point(tx).real)", "            if 0 < tx < 1:\n                xtrema.append(self.point(tx).real)", 'x-extrema admitted on the open interval only')
 brk('C08', P, "            if 0 <= ty <= 1:\n                ytrema.append(self.point(ty).imag)", "            if -1 <= ty <= 1:\n                ytrema.append(self.point(ty).imag)", 'y-extrema admitted for negative parameters')
 ben('C08', P, "            if 0 <= tx <= 1:\n                xtrema.append(self.point(tx).real)", "            if tx >= 0 and not tx > 1:\n                xtrema.append(self.point(tx).real)", 'expanded admission test')
+
+# ---------------------------------------------------------------- C09 R09.5 closed-form relocation
+brk('C09', P, "        t1_adj = trimmed_seg.radialrange(pt1)[0][1]", "        t1_adj = (t1 - t0)/t1", 'closed-form relocation with the wrong denominator')
+ben('C09', P, "        t1_adj = trimmed_seg.radialrange(pt1)[0][1]", "        t1_adj = (t1 - t0)/(1 - t0)", 'closed-form relocation (correct)')
